@@ -159,6 +159,12 @@ theorem honest_step {cfg : Cfg} {u : List Blk} {src : Chain} (S : Setting u src)
             simp [Impl.step, ht, hok, hsucc]
           exact ⟨⟨by rw [hn.1]; exact I.good, by intro l hl; rw [hn.2] at hl; cases hl⟩,
             by rw [hn.1]; exact Nat.le_refl _⟩
+        | rootMismatch =>
+          have hn : (s.step cfg (.deliver req b false)).1.node = s.node ∧
+              (s.step cfg (.deliver req b false)).1.task = none := by
+            simp [Impl.step, ht, hok, hsucc]
+          exact ⟨⟨by rw [hn.1]; exact I.good, by intro l hl; rw [hn.2] at hl; cases hl⟩,
+            by rw [hn.1]; exact Nat.le_refl _⟩
         | stored =>
           have hn : (s.step cfg (.deliver req b false)).1.node.chain = b :: s.node.chain ∧
               (s.step cfg (.deliver req b false)).1.task = none := by
@@ -439,6 +445,15 @@ theorem roundEvents_spec (cfg : Cfg) (src : Chain) (s : Impl) (ht : s.task = non
         · simp [hok, Impl.run_cons, Impl.run, h1.1, hr]
         · simp [hok, Impl.run_cons, Impl.run, h1.2]
       | badNumber =>
+        have h1 : (s.step cfg (.deliver (nextHeight s.node.chain) b false)).1.node = s.node ∧
+            (s.step cfg (.deliver (nextHeight s.node.chain) b false)).1.task = none := by
+          simp [Impl.step, ht, hok, hsucc]
+        have hr : (round cfg src s.node).1.chain = s.node.chain := by
+          simp [round, hf, hok, hsucc]
+        refine ⟨by simp [hok, HonestRun]; exact hhon, ?_, ?_⟩
+        · simp [hok, Impl.run_cons, Impl.run, h1.1, hr]
+        · simp [hok, Impl.run_cons, Impl.run, h1.2]
+      | rootMismatch =>
         have h1 : (s.step cfg (.deliver (nextHeight s.node.chain) b false)).1.node = s.node ∧
             (s.step cfg (.deliver (nextHeight s.node.chain) b false)).1.task = none := by
           simp [Impl.step, ht, hok, hsucc]
